@@ -66,7 +66,7 @@ def cfgs_tla(cfgs):
 
 # ------------------------------------------------------------------ concretiser
 STYLES = ["ascii", "unicode", "escapes", "control", "dollar_inside", "digits", "long", "jsonlike", "b64like", "spaces", "pseudolike", "percent"]
-CLASH_STYLES = STYLES + ["classclash", "classclash"]      # C05 only: the same text in several lexical classes (tokens are then not unique per leaf)
+CLASH_STYLES = STYLES + ["classclash", "classclash", "nearmail"]      # C05 only: the same text in several lexical classes (tokens are then not unique per leaf)
 # a few texts that occur in several lexical classes within one run (a plain string spelled like an ObjectId, a date, a payload)
 CLASH = {"oid": ["65f1a2b3c4d5e6f708192a3b", "5e0000000000000000c1a5b0"], "date": ["2024-02-29T12:34:56.789Z", "1999-12-31T23:59:59.000Z"],
          "b64": ["c2VjcmV0IGJ5dGVzIQ==", "AAECAwQFBgcICQoLDA0ODw=="]}
@@ -109,9 +109,21 @@ def _plain(idn, style, rng):
     if style == "classclash":
         t = rng.choice(CLASH["oid"] + CLASH["date"] + CLASH["b64"])
         return t, t
+    if style == "nearmail":
+        # almost e-mail shaped: a letter outside ASCII that case folding maps onto one (long s, KELVIN SIGN), a blank, no domain dot is fine for neither
+        return rng.choice(["Wa\u017f%s@example.de", "273\u212a%s@lab.example", "%s name@example.com", "%s@exa mple.com", "%s\u00e9@example.com"]) % tok, tok
     if style == "percent":
         return "100%% %s %d " + tok + " %!s(MISSING)", tok
     raise ValueError(style)
+
+
+XJSON_PAYLOAD = {
+    "$uuid": lambda i, r: "%08x-%04x-4%03x-%s%03x-%012x" % (r.getrandbits(32), r.getrandbits(16), r.getrandbits(12), r.choice("89ab"), r.getrandbits(12), i),
+    "$numberLong": lambda i, r: r.choice(["%d", "-%d", "92233720368%07d"]) % i,
+    "$numberInt": lambda i, r: "%d" % (i % 2147483647),
+    "$numberDouble": lambda i, r: r.choice(["%d.5", "%d.0E-3", "-%de2"]) % i,
+    "$numberDecimal": lambda i, r: r.choice(["%d.%d" % (i, i % 97), "%dE+6000" % i, "-%d.5E-6100" % i, "0.%d" % i]),
+}
 
 
 class Leaf:
@@ -200,6 +212,10 @@ class Concretiser:
                 node, tok = ('str', s), s
             elif getattr(self, "_twin", None) and rng.random() < 0.6:
                 node, tok = ('str', self._twin), self._twin
+            elif v and path and path[-1] in XJSON_PAYLOAD and rng.random() < 0.6:
+                # what really stands under these extended-JSON wrappers: a well-formed UUID, canonical number strings (also ones float64 cannot hold)
+                s = XJSON_PAYLOAD[path[-1]](idn, rng)
+                node, tok = ('str', s), s
             else:
                 style = "ascii" if v == 0 else rng.choice(self.styles)
                 if style == "long":          # one long literal per line keeps the line below the reader's 64 KiB limit
@@ -290,7 +306,8 @@ class Concretiser:
             node = ('str', self.fn_plan() if self.fn_style else "IXSCAN { uf1: 1, uf2.sub: -1 }")
         elif cls == "num":
             if lab == "env":
-                node = ('num', rng.choice(["7469113720208097282", "1E5", "-0.0", "1e400", "12345678901234567890123", "0.1000", "43", "-7", "2.50e-3"]) if v else "43")
+                node = ('num', rng.choice(["7469113720208097282", "1E5", "-0.0", "1e400", "12345678901234567890123", "0.1000", "43", "-7", "2.50e-3",
+                                            "-0", "-0e0", "0E+5", "1E+2", "10000000000000000000", "-9223372036854775809", "0.0"]) if v else "43")
             else:
                 s = "%d.%d5" % (7000000 + idn, rng.randint(0, 9)) if (v == 0 or rng.random() < 0.5) else rng.choice(["%d", "-%d", "%de2", "%d.0E-1"]) % (7000000 + idn)
                 node, tok = ('num', s), s
@@ -308,6 +325,8 @@ class Concretiser:
         # one concrete spelling per abstract key and case (the same key must stay the same key)
         if k not in self._keys:
             self._keys[k] = self.rng.choice(KEY_STYLES) % k
+            if k == "uf1" and self.rng.random() < 0.1:
+                self._keys[k] = ""          # the empty string is a legal field name
         return self._keys[k]
 
     # ---- field-name redaction (C15): planted identifiers
@@ -360,6 +379,9 @@ class Concretiser:
             if v > 0 and rng.random() < 0.15:
                 coll = rng.choice(["66%d17", "Clq%dz.20%d", "ledger%d.%d"])
                 coll = coll % ((i,) * coll.count("%d"))
+            elif v > 0 and rng.random() < 0.12:
+                # per-tenant / per-shard names that end in an id (16 hex digits, an ObjectId, a UUID without dashes)
+                coll = "Clq%dz_%s" % (i, rng.choice(["%016x" % rng.getrandbits(64), "%024x" % rng.getrandbits(96), "%032x" % rng.getrandbits(128)]))
             self._nsn = (db, coll, "Odq%dz" % i, osh % ((i,) * osh.count("%d")))
         return self._nsn
 
@@ -382,6 +404,8 @@ class Concretiser:
                     if k2 == "ufv" and getattr(self, "vocab_words", None):
                         # a user field spelled like a word of the operator tables: another word for every case
                         k2 = self.vocab_words[(self.idx * 7 + self.variant) % len(self.vocab_words)]
+                    if k2 == "findAndModify" and self.variant > 0 and self.rng.random() < 0.4:
+                        k2 = "findandmodify"        # the legacy all-lower-case alias, logged as the client sent it
                     if self.fn_style and k2 in FN_KEYS:
                         k2 = self.fn_name(k2, path)
                     elif self.variant > 0 and k2 in EXOTIC_KEYS and self.exotic_keys:
@@ -393,7 +417,12 @@ class Concretiser:
                     and all(isinstance(e, list) and len(e) >= 2 and e[1] in ("user", "any") for e in elems)):
                 # a long operand list: numbers at the first, middle and last position, the original elements in between
                 num = ["num", elems[0][1]]
-                elems = [num] + list(elems) + [num] * (39 - len(elems))
+                if self.rng.random() < 0.35 and any(e[0] == "plain" for e in elems):
+                    # ... or a long list of strings (66 ... 130 operands: after redaction they all look alike)
+                    st = [e for e in elems if e[0] == "plain"][0]
+                    elems = list(elems) + [list(st)] * (self.rng.choice([66, 100, 130]) - len(elems))
+                else:
+                    elems = [num] + list(elems) + [num] * (39 - len(elems))
                 if getattr(self, "twins", False):
                     # (C03 only) one of the strings that follow is spelled exactly like the number in front of them: "7000123.45" next to 7000123.45
                     first = self.build(elems[0], path + (0,))
